@@ -158,7 +158,11 @@ def part(isa, r, n, stats, fill=None):
             out.append("%s some comment %d" % (cmt(isa, r), r.randrange(100)))
             stats["nonins"] += 1
         elif x < 0.83:
-            out.append("")
+            # an empty line, sometimes a page break (^L) or another white-space character that some line-splitting routines
+            # take for a line boundary: still one blank line of the file
+            out.append("" if r.random() < 0.8 else r.choice(["\x0c", "\x0c", "\x0b", "\x1c", "\x85", "\u2028"]))
+            if out[-1]:
+                stats["formfeed"] = stats.get("formfeed", 0) + 1
         else:
             k, ls = decoy(isa, r)
             stats["decoys"].append(k)
